@@ -15,10 +15,13 @@
   without hash index, duplicated and empty keys included) and every finite sequence of operations that
   does not call `Len()` on a not-yet-loaded node, every observation and the final MarshalJSON are those
   of the plain tree (`refinement_seq_partial`; without any side condition when `Len` is not used:
-  `refinement_seq_except_len`).
+  `refinement_seq_except_len`).  On loaded nodes `Len` is right too (`refinement_loaded`,
+  `len_loaded_is_length`, `len_after_iter`).  The plain-list child store of `NodeM` is the chunked
+  `linkedNodes`/`linkedPairs` storage for every mutator and every sequence (`chunk_*`,
+  `chunk_ops_refine_list`, `store_ops_refine_list`).
 -/
 import SonicSpec.Proofs.AstRefine
-import SonicSpec.Proofs.AstChunk
+import SonicSpec.Proofs.AstChunkOps
 namespace SonicSpec.Props.C15
 open SonicSpec SonicSpec.Ast
 
@@ -119,6 +122,118 @@ theorem chunk_push (α : Type) (c : Nat) (hc : 0 < c) (zero : α) (s : Linked α
 theorem chunk_pop (α : Type) (c : Nat) (hc : 0 < c) (zero : α) (s : Linked α) (h : Linked.WF c s) :
     Linked.WF c (Linked.pop c zero s) ∧ Linked.toList (Linked.pop c zero s) = (Linked.toList s).dropLast :=
   Linked.pop_toList c hc zero s h
+
+/-! ### `Len`: full strength on loaded nodes -/
+
+/-- a node whose first level is loaded (anything but a raw or lazily loaded container) refines the
+    plain tree for EVERY operation, `Len` included: the statement at full strength for loaded nodes -/
+theorem refinement_loaded (n : NodeM) (op : Op) (hr : n.repOk = true) (hl : n.lenSafe = true) :
+    Refines (stepM n ⟨[], op⟩) (step n.abs ⟨[], op⟩) :=
+  stepHere_refines n op hr (safeHere_of_lenSafe n op hl)
+
+/-- in particular `Len()` of a loaded array / object is the length of the list / association list,
+    whatever the number of soft-deleted slots and wherever the chunk boundary falls -/
+theorem len_loaded_is_length (n : NodeM) (hr : n.repOk = true) (hl : n.lenSafe = true) :
+    (∀ xs, n.abs = .arr xs → (stepM n ⟨[], .len⟩).1 = .n xs.length) ∧
+    (∀ kvs, n.abs = .obj kvs → (stepM n ⟨[], .len⟩).1 = .n kvs.length) := by
+  have h := (refinement_loaded n .len hr hl).1
+  constructor
+  · intro xs ha; rw [h]; simp [step, Tree.stepAt, ha, Tree.stepHere]
+  · intro kvs ha; rw [h]; simp [step, Tree.stepAt, ha, Tree.stepHere]
+
+/-- and a node IS loaded after an iteration: `iter; len` is right from every representation (raw and
+    lazy ones included) - the deviation of `len_partial_observable` needs a not-yet-loaded node -/
+theorem len_after_iter (n : NodeM) (hr : n.repOk = true) :
+    (runM n [⟨[], .iter⟩, ⟨[], .len⟩]).1 = (run n.abs [⟨[], .iter⟩, ⟨[], .len⟩]).1 := by
+  apply (run_refines _ n hr _).1
+  simp only [safeRun, safeStep, NodeM.safeAt, NodeM.safeHere, Bool.true_and, Bool.and_true]
+  exact lenSafe_after_iter n hr
+
+/-! ### the chunked storage refines the plain list, for every mutator and every sequence
+
+`NodeM` keeps the children of a loaded container in a plain list; ast/buffer.go keeps them in a head
+array of `_DEFAULT_NODE_CAP` slots plus tail chunks.  The theorems below close that gap once and for
+all: with `toList` as abstraction, each mutator the public API reaches commutes with the list
+operation `NodeM` uses, and so does every finite sequence of them - whatever the container size and
+wherever the chunk boundary falls. -/
+
+/-- `*At(i) = v` (SetByIndex, Set on an existing key; with `v` = zero value: the soft deletion of
+    Unset / UnsetByIndex) is `List.set`; size and shape are kept -/
+theorem chunk_assign (α : Type) (c : Nat) (hc : 0 < c) (s : Linked α) (h : Linked.WF c s) (i : Nat) (v : α) :
+    Linked.WF c (Linked.assign c s i v) ∧ (Linked.assign c s i v).size = s.size ∧
+    Linked.toList (Linked.assign c s i v) = (Linked.toList s).set i v :=
+  Linked.assign_toList c hc s h i v
+
+/-- `MoveOne(src, dst)` (ast/buffer.go:63, the two shifting loops) is `moveElem`, the function
+    `Move` uses in `NodeM` and in the specification -/
+theorem chunk_move_one (α : Type) (c : Nat) (hc : 0 < c) (s : Linked α) (h : Linked.WF c s) (src dst : Nat) :
+    Linked.WF c (Linked.moveOne c s src dst) ∧
+    Linked.toList (Linked.moveOne c s src dst) = moveElem (Linked.toList s) dst src := by
+  obtain ⟨w, tl⟩ := Linked.moveOne_toList c hc s h src dst
+  exact ⟨w, by rw [tl, LOps.moveOne_eq_moveElem]⟩
+
+/-- `Swap(i, j)` (ast/buffer.go:404; `Sort` is a sequence of these) exchanges two elements of the list -/
+theorem chunk_swap (α : Type) (c : Nat) (hc : 0 < c) (s : Linked α) (h : Linked.WF c s) (i j : Nat) :
+    Linked.WF c (Linked.swap c s i j) ∧ Linked.toList (Linked.swap c s i j) = LOps.swap (Linked.toList s) i j :=
+  Linked.swap_toList c hc s h i j
+
+/-- the tail loop of `Node.Pop` (drop emptied slots at the end, then one live slot) is `popLive` -/
+theorem chunk_pop_loop (α : Type) (c : Nat) (hc : 0 < c) (zero : α) (live : α → Bool) (s : Linked α)
+    (h : Linked.WF c s) :
+    Linked.WF c (Linked.popLoop c zero live s.size s).1 ∧
+    Linked.toList (Linked.popLoop c zero live s.size s).1 = (popLive live (Linked.toList s)).1 ∧
+    (Linked.popLoop c zero live s.size s).2 = (popLive live (Linked.toList s)).2 :=
+  Linked.popLoop_toList c hc zero live s.size s h (Nat.le_refl _)
+
+/-- every finite sequence of assign / unset / push / pop / MoveOne / Swap: the chunked storage keeps
+    its shape invariant and its slots in use are what the same sequence makes of the plain list -/
+theorem chunk_ops_refine_list (α : Type) (c : Nat) (hc : 0 < c) (zero : α) (ops : List (Linked.COp α))
+    (s : Linked α) (h : Linked.WF c s) :
+    Linked.WF c (Linked.runOps c zero s ops) ∧
+    Linked.toList (Linked.runOps c zero s ops) = LOps.runOps zero (Linked.toList s) ops :=
+  Linked.runOps_toList c hc zero ops s h
+
+/-- the same for the store transitions exactly as `NodeM.stepHere` performs them (`List.set`, the soft
+    delete, append, `popLive`, `moveElem`): the plain-list store of `NodeM` IS the chunked storage, for
+    every sequence, so `refinement_seq_partial` needs no separate argument for containers beyond 16 -/
+theorem store_ops_refine_list (α : Type) (c : Nat) (hc : 0 < c) (zero : α) (live : α → Bool)
+    (ops : List (StoreOp α)) (s : Linked α) (h : Linked.WF c s) :
+    Linked.WF c (StoreOp.runC c zero live s ops) ∧
+    Linked.toList (StoreOp.runC c zero live s ops) = StoreOp.runL zero live (Linked.toList s) ops :=
+  StoreOp.runC_toList c hc zero live ops s h
+
+/-- in particular a container built by pushes from `new(linkedNodes)` holds exactly what was pushed -/
+theorem chunk_build (α : Type) (c : Nat) (hc : 0 < c) (zero : α) (vs : List α) :
+    Linked.toList (Linked.runOps c zero (Linked.empty c zero) (vs.map Linked.COp.push)) = vs := by
+  obtain ⟨w, e⟩ := Linked.empty_spec c zero
+  rw [(Linked.runOps_toList c hc zero _ _ w).2, e, LOps.runOps_push]; rfl
+
+/-- `FromSlice` (ast/buffer.go:161, 372; `NewArray`, `NewObject`): the chunked storage built from a
+    slice has the shape invariant and holds exactly the slice, whatever its length -/
+theorem chunk_from_slice (α : Type) (c : Nat) (hc : 0 < c) (zero : α) (con : List α) :
+    Linked.WF c (Linked.fromSlice c zero con) ∧ Linked.toList (Linked.fromSlice c zero con) = con :=
+  Linked.fromSlice_spec c hc zero con
+
+/-- non-vacuity, across the 16-slot boundary in both directions: 17 pushes allocate a tail chunk;
+    slot 15 (last of `head`) is soft-deleted; the element of slot 16 (first of the tail chunk) is moved
+    to slot 2 and slot 1 to slot 16; two pops bring the size back to 15; a push grows it again -/
+example :
+    let s := Linked.runOps 16 0 (Linked.empty 16 (0 : Nat))
+      ((List.range 17).map (fun i => Linked.COp.push (i + 100)) ++
+        [.unset 15, .moveOne 16 2, .moveOne 1 16, .swap 0 16, .pop, .pop, .push 7])
+    s.tail.length = 1 ∧ s.size = 16 ∧
+    Linked.toList s = [101, 116, 102, 103, 104, 105, 106, 107, 108, 109, 110, 111, 112, 113, 114, 7] := by decide
+
+/-- the store transitions of `NodeM` across the boundary with soft-deleted slots on it: 18 pushes,
+    slots 15 (last of `head`), 16, 17 (tail chunk) emptied, the Pop loop trims them and takes slot 14
+    (size 18 -> 14), three pushes grow it back over the boundary, writes and moves across it -/
+example :
+    let ops : List (StoreOp Nat) := (List.range 18).map (fun i => StoreOp.push (i + 1)) ++
+      [.kill 16, .kill 15, .kill 17, .popLive, .push 50, .push 51, .push 52, .setAt 16 60, .move 0 16, .kill 15,
+       .move 16 2]
+    let s := StoreOp.runC 16 0 (· != 0) (Linked.empty 16 (0 : Nat)) ops
+    s.size = 17 ∧ Linked.toList s = StoreOp.runL 0 (· != 0) [] ops ∧
+    Linked.toList s = [60, 1, 3, 4, 5, 6, 7, 8, 9, 10, 11, 12, 13, 14, 0, 51, 2] := by decide +kernel
 
 /-! ## what does not hold: `Len()` before the node is loaded -/
 
